@@ -62,4 +62,26 @@ CLAIMS["C18"] = {
     "design_ref": "DESIGN.md §3 C18",
 }
 
+CLAIMS["C16"] = {
+    "technique": "rapid-generated streams through the loss filter into a recording sink: equality / emptiness / subsequence oracle and a 6-sigma binomial bound",
+    "engine": "rapid-models",
+    "text": "Generated-input search: chances {0,1,5,50,95,99,100,101,1000, negative} and uniform 0..100, streams of 0..2000 tagged chunks (40000 for the statistical cases) are pushed through NewLossFilter in front of a sink NIC; chance 0 must forward everything, chance >= 100 nothing, the output is always an in-order, duplicate-free, byte-identical subsequence with unchanged addresses, and on 40000 chunks the dropped count must lie within 6 sigma of N*p. Exploration plus a statistical test.",
+    "note": "Trusted: in-package sink shim (shims/vnet); the statistical assertion has a false-alarm probability below 2e-9 per case.",
+    "design_ref": "DESIGN.md §3 C16",
+}
+CLAIMS["C02"] = {
+    "technique": "rapid-generated outbound/inbound/advance histories against an RFC 4787 mapping model on a virtual clock (external addresses learned, then constrained); 1:1 mode table; port-space scenario; end-to-end regression",
+    "engine": "vclock",
+    "text": "Generated-input search on the translator itself (in-package shim) with time.Now redirected to a virtual clock: all 9 mapping x filtering behaviours, 3 lifetimes, 1..4 internal endpoints, 1..5 remotes, advances of {0,1/3,2/3,1-e,1,1+e,3} lifetimes. Same key and live => same external address; new key => valid address unlike every live mapping's; idle > lifetime ends the mapping; inbound never prolongs it. 1:1 mode: paired IP rewritten both ways, port preserved. A scenario requests 16380..16400 mappings (more than the dynamic port range), with and without expiry. Exploration only.",
+    "note": "Trusted: the model (harness/vnat/model.go); an idle time of exactly one lifetime is 'either'; a translation that returns an error hands out nothing and is flagged only when a live mapping exists for the key (the end-to-end regression decides whether the router keeps forwarding).",
+    "design_ref": "DESIGN.md §3 C02, Appendix A",
+}
+CLAIMS["C03"] = {
+    "technique": "rapid-generated histories with inbound emphasis against the permission model; refused datagrams leave the model untouched so side effects surface later",
+    "engine": "vclock",
+    "text": "Same harness as C02 with 55% inbound events to learned, expired, never-allocated and foreign external addresses from contacted, same-IP-other-port and never-contacted remotes: forwarded iff a live mapping owns the address and the remote matches a recorded permission; then to exactly the creator, source and payload unchanged and not aliasing the input. The model ignores refused datagrams, so a permission, refresh or mapping created by one shows up as a later disagreement. 1:1 mode: paired external IP -> paired local IP, unpaired dropped. Exploration only.",
+    "note": "Trusted: the model; 'exactly one lifetime idle' is either.",
+    "design_ref": "DESIGN.md §3 C03, Appendix A",
+}
+
 PENDING_REASON = "check not built yet in this revision of /verif (planned, see DESIGN.md §3); nothing is claimed for it"
